@@ -181,7 +181,8 @@ theorem compress_ok {nxOf nyOf lcxOf lcyOf : Nat → Nat → Nat → Nat} (L : I
       ({ naxis1 := (im.cols + f - 1) / f + 1, naxis2 := (im.rows + f - 1) / f + 1,
          crpix1 := (h.crpix1 + f - 1) / f, crpix2 := (h.crpix2 + f - 1) / f,
          cdelt1 := a1, cd11 := b1, cdelt2 := a2, cd22 := b2,
-         bn := some { cfac := f, npx1 := h.naxis1, npx2 := h.naxis2, rpx1 := im.rows % f, rpx2 := im.cols % f } },
+         bn := some { cfac := f, npx1 := h.naxis1, npx2 := h.naxis2, rpx1 := im.rows % f, rpx2 := im.cols % f },
+         other := h.other },
        { rows := (im.rows + f - 1) / f + 1, cols := (im.cols + f - 1) / f + 1, px := cpx f im }) := by
   have hf0 : f ≠ 0 := by omega
   have h2 : ¬ (im.rows < 2 ∨ im.cols < 2) := by omega
@@ -202,7 +203,7 @@ theorem expand_ok {nodeRow nodeCol : Nat → Nat → Nat → Nat → Nat} (hc : 
     expand nodeRow nodeCol hc c = .ok
       ({ naxis1 := bn.npx1, naxis2 := bn.npx2,
          crpix1 := (hc.crpix1 - 1) * bn.cfac + 1, crpix2 := (hc.crpix2 - 1) * bn.cfac + 1,
-         cdelt1 := a1, cd11 := b1, cdelt2 := a2, cd22 := b2, bn := none },
+         cdelt1 := a1, cd11 := b1, cdelt2 := a2, cd22 := b2, bn := none, other := hc.other },
        { rows := bn.npx2, cols := bn.npx1,
          px := interp2 (fun k => k * bn.cfac) (fun k => k * bn.cfac) c.rows c.cols c.px }) := by
   have hf0 : bn.cfac ≠ 0 := by omega
@@ -222,7 +223,7 @@ theorem roundTrip_eq {nxOf nyOf lcxOf lcyOf : Nat → Nat → Nat → Nat} {node
     roundTrip nxOf nyOf lcxOf lcyOf nodeRow nodeCol f h im = .ok
       ({ naxis1 := h.naxis1, naxis2 := h.naxis2,
          crpix1 := ((h.crpix1 + f - 1) / f - 1) * f + 1, crpix2 := ((h.crpix2 + f - 1) / f - 1) * f + 1,
-         cdelt1 := h.cdelt1, cd11 := h.cd11, cdelt2 := h.cdelt2, cd22 := h.cd22, bn := none },
+         cdelt1 := h.cdelt1, cd11 := h.cd11, cdelt2 := h.cdelt2, cd22 := h.cd22, bn := none, other := h.other },
        { rows := h.naxis2, cols := h.naxis1,
          px := interp2 (fun k => k * f) (fun k => k * f) ((im.rows + f - 1) / f + 1) ((im.cols + f - 1) / f + 1)
                  (cpx f im) }) := by
